@@ -24,6 +24,7 @@ Endings == {
   H("mid_code_point",       <<"ok">>, <<Ok, F(1, 0, <<226, 130>>)>>, <<D(2), Eof>>, <<>>),
   H("mid_code_point_in_frame", <<"ok">>, <<Ok, F(1, 1, <<97, 226, 130, 172>>)>>, <<D(1), B(4), Eof>>, <<>>),
   H("mid_compression_context", <<"ok">>, <<OkZ, Z(F(1, 1, <<104, 105, 104, 105, 104, 105, 104, 105>>)), Z(F(2, 0, <<104, 105, 104, 105>>))>>, <<D(3), Eof>>, <<>>),
+  H("compressed_send_then_drop", <<"ok">>, <<OkZ, Z(F(1, 1, <<104, 105, 104, 105, 104, 105>>))>>, <<D(2), Eof>>, <<R("text#0", "send")>>),
   H("while_closing",        <<"ok">>, <<Ok, F(1, 1, <<97>>)>>, <<D(2), Eof>>, <<R("text#0", "close")>>),
   H("closed_by_client",     <<"ok">>, <<Ok, F(8, 1, <<3, 232>>)>>, <<D(1), D(1), Eof>>, <<R("ready#0", "close")>>),
   H("closed_by_server",     <<"ok">>, <<Ok, F(8, 1, <<3, 232>>)>>, <<D(2), Eof>>, <<>>),
